@@ -109,6 +109,9 @@ class Run:
         self.inflight = 0
         self.max_inflight = 0
         self.outcome = None
+        self.sniffed: List[tuple] = []
+        self.sniffers = 0
+        self.shared_initial = False
 
     def execute(self):
         from basana.core import dispatcher, event
@@ -140,6 +143,15 @@ class Run:
             # still a per-source matter
             shared = event.Producer() if sc.get("shared_producer", len(sc["pushes"]) % 3 == 0) else None
             srcs = [event.FifoQueueEventSource(producer=shared) for _ in range(sc["nsrc"])]
+            pushed: List[Dict[str, Any]] = []
+            if sc.get("shared_initial", len(sc["pushes"]) % 5 == 1 and sc["nsrc"] >= 2):
+                # two sources are built from one and the same list of initial events: each delivers all of them
+                initial = [Ev(base, 10000 + i, 0.0, []) for i in range(3)]
+                for s_ in (0, 1):
+                    srcs[s_] = event.FifoQueueEventSource(producer=shared, events=initial)
+                    for e_ in initial:
+                        pushed.append({"eid": e_.eid, "src": s_, "when": 0.0, "pushed_at": 0.0, "dur": 0.0})
+                run.shared_initial = True
             job_info: Dict[int, Dict[str, Any]] = {}
 
             def mk_job(jid, when, dur, fail=False):
@@ -176,7 +188,7 @@ class Run:
                     now = bdt.utc_now()
                     run.inflight += 1
                     run.max_inflight = max(run.max_inflight, run.inflight)
-                    run.rows.append((vt(), "ev", (e.eid, hi), "start", vt_of(e.when), now >= e.when))
+                    run.rows.append((vt(), "ev", (e.eid, hi, si), "start", vt_of(e.when), now >= e.when))
                     try:
                         if hi == 0:
                             for sj in e.sched:
@@ -187,7 +199,7 @@ class Run:
                             raise bt.failure("handler fails", e.eid)      # must not affect the other handler / later items
                     finally:
                         run.inflight -= 1
-                        run.rows.append((vt(), "ev", (e.eid, hi), "end", vt_of(e.when), True))
+                        run.rows.append((vt(), "ev", (e.eid, hi, si), "end", vt_of(e.when), True))
                 return handler
 
             for si, s in enumerate(srcs):
@@ -204,7 +216,16 @@ class Run:
             for k in range(sc["idle"]):
                 d.subscribe_idle(bt.shaped(mk_idle(k), k + 1))
 
-            pushed: List[Dict[str, Any]] = []
+            if sc.get("sniffers", len(sc["pushes"]) % 2 == 0):
+                # catch-all handlers: an event that is dropped reaches nobody, them included
+                def mk_sniffer(which):
+                    async def sniffer(e):
+                        if hasattr(e, "eid"):
+                            run.sniffed.append((vt(), e.eid, which))
+                    return sniffer
+                d.subscribe_all(mk_sniffer("front"), front_run=True)
+                d.subscribe_all(mk_sniffer("back"))
+                run.sniffers = 2
 
             async def feeder():
                 for eid, p in enumerate(sc["pushes"]):
@@ -264,7 +285,7 @@ class Run:
             if r[0] < r[4] - 1e-6:
                 out.append(("dispatched_early", f"{r[1]} {r[2]} with time {r[4]:.6f} started at virtual {r[0]:.6f}"))
             if r[1] == "ev":
-                ev_start[r[2][0]].append(r)
+                ev_start[(r[2][0], r[2][2])].append(r)
             else:
                 job_start[r[2]].append(r)
         nh = sc["handlers_per_source"]
@@ -284,7 +305,7 @@ class Run:
                     prev = p["when"]
         n_err = len(self.errors)
         for p in self.pushed:
-            n = len(ev_start.get(p["eid"], []))
+            n = len(ev_start.get((p["eid"], p["src"]), []))
             if p["eid"] in dropped_expected:
                 if n != 0:
                     out.append(("out_of_order_event_delivered",
@@ -297,13 +318,31 @@ class Run:
                     out.append(("due_event_not_dispatched",
                                 f"event {p['eid']} of source {p['src']} (time {p['when']:.3f}, pushed at {p['pushed_at']:.3f}) "
                                 f"started {n}/{nh} handlers by virtual {self.deadline:.2f} (pool {sc['max_concurrent']})"))
+        if self.sniffers:
+            seen = collections.Counter((eid, which) for (_t, eid, which) in self.sniffed)
+            copies = collections.Counter(p["eid"] for p in self.pushed)
+            for p in self.pushed:
+                if p["eid"] in dropped_expected:
+                    if any(seen.get((p["eid"], w)) for w in ("front", "back")):
+                        out.append(("out_of_order_event_delivered",
+                                    f"event {p['eid']} of source {p['src']} was dropped as out of order, yet the catch-all "
+                                    f"handlers received it ({seen.get((p['eid'], 'front'), 0)} front-running, "
+                                    f"{seen.get((p['eid'], 'back'), 0)} regular)"))
+                        break
+                elif len(ev_start.get((p["eid"], p["src"]), [])) == nh:
+                    for w in ("front", "back"):
+                        if seen.get((p["eid"], w), 0) != copies[p["eid"]] and p["eid"] not in dropped_expected:
+                            out.append(("catch_all_delivery_count",
+                                        f"event {p['eid']}: {w} catch-all handler called {seen.get((p['eid'], w), 0)} times, "
+                                        f"expected {copies[p['eid']]}"))
+                            break
         if n_err < len(dropped_expected):
             out.append(("dropped_event_not_reported", f"{len(dropped_expected)} out-of-order events but on_error was called {n_err} times"))
         if n_err > len(dropped_expected):
             out.append(("spurious_error_report", f"on_error called {n_err} times for {len(dropped_expected)} out-of-order events: {self.errors[:2]}"))
         # delivered order per source is non-decreasing in time
         for si, lst in by_src.items():
-            started = sorted((ev_start[p["eid"]][0][0], p["when"], p["eid"]) for p in lst if ev_start.get(p["eid"]))
+            started = sorted((ev_start[(p["eid"], si)][0][0], p["when"], p["eid"]) for p in lst if ev_start.get((p["eid"], si)))
             whens = [w for _, w, _ in started]
             if any(a > b + 1e-9 for a, b in zip(whens, whens[1:])):
                 out.append(("source_order", f"source {si} delivered event times {whens}"))
@@ -327,10 +366,10 @@ class Run:
                 for p in lst:
                     if p["eid"] in dropped_expected:
                         continue
-                    if not ev_start.get(p["eid"]):
+                    if not ev_start.get((p["eid"], si)):
                         break
                     elig = max(p["when"], p["pushed_at"], prev_taken)
-                    st = ev_start[p["eid"]][0][0]
+                    st = ev_start[(p["eid"], si)][0][0]
                     if st - elig > 0.1 + 1e-6:
                         out.append(("late_dispatch_unsaturated",
                                     f"event {p['eid']} eligible at {elig:.3f} started at {st:.3f} with a pool of {sc['max_concurrent']}"))
